@@ -106,6 +106,31 @@ func genC09(tier string, rng *Rng) {
 			}
 		}
 	}
+	// a slow consumer of msgsFromPanel: the panel sends an event, the application picks it up
+	// only after 3 s; submissions made meanwhile (and after) must all reach the panel
+	for _, asc := range []bool{false, true} {
+		cs := ConnScript{End: "none"}
+		if asc {
+			cs.Items = []Item{{Kind: "ln", Data: Lit([]byte("RDY"))}, {Kind: "ln", Data: Lit([]byte("HWC#1=Down"))}, {Kind: "ln", Data: Lit([]byte("HWC#1=Up"))}}
+			cs.Segs = []SegCut{{0, 4}, {60, 11}, {3300, 9}}
+		} else {
+			a, b := Item{Kind: "f", Data: Lit(evMsg(1, true))}, Item{Kind: "f", Data: Lit(evMsg(1, false))}
+			cs.Items = []Item{ackItem(), a, b}
+			cs.Segs = []SegCut{{0, 6}, {60, len(a.Encode())}, {3300, len(b.Encode())}}
+		}
+		sc := &Scenario{Entry: "client", Conns: []ConnScript{cs}, SubStart: 100, RecvFrom: 3000, Cancel: 4200}
+		mk := func(id uint32, delay int) Submission {
+			return Submission{Msgs: []*rwp.InboundMessage{randInMsg(rng, id, false), randInMsg(rng, id+2, false)}, Delay: delay}
+		}
+		sc.Subs = [][]Submission{{mk(9001, 0), mk(9011, 2400), mk(9021, 300), mk(9031, 600)}}
+		mode := "bin"
+		if asc {
+			mode = "asc"
+		}
+		sc.ID = mode + "-slow-consumer"
+		scs = append(scs, sc)
+		hist[mode+"-slow-consumer"]++
+	}
 	meta(map[string]interface{}{"c09_scenarios_by_shape": hist, "scenarios": len(scs)})
 	runBatch(scs, 16)
 	meta(map[string]interface{}{"reruns": rerunCount, "reruns_rescued": rerunRescued})
